@@ -23,6 +23,15 @@ PROPS = {
     'C16': dict(level='proof', functions=STRUCT + [U + 'pa'], bounded=[], design='DESIGN.md §4 C16', technique=TECH, note=NOTE + ' Cardinality facts L-CARD are asserted per count instance.',
                 claim='every structural decomposition (only_directed/only_undirected/skeleton/edge lists/edge_weights/vstructures/moral_graph/induced_subgraph/is_clique/is_complete/degrees) is proved against its first-order definition for all binary PDAGs and signed DAG weight matrices of any size.'),
 }
+ND = 'sempler.normal_distribution.NormalDistribution.'
+PROPS['C05'] = dict(level='proof', functions=[U + 'matrix_block', ND + '__init__', ND + 'marginal', ND + 'conditional'], bounded=[],
+                    design='DESIGN.md §4 C05', technique=TECH,
+                    note=NOTE + ' A-LINALG (ring/inverse laws over matrix tokens). That the Schur-complement formula is the conditional Gaussian law is the cited lemma L-SCHUR (not mechanised).',
+                    claim='marginal/conditional/matrix_block/constructor are proved, for every dimension and all index arrays in any order, to select exactly the requested entries in the requested order, to raise ValueError exactly on size mismatch or overlapping X/Y, to reduce to the marginal when X is empty, and to return mean_Y + C_YX C_XX^-1 (x - mean_X) and C_YY - C_YX C_XX^-1 C_XY over the reals; inputs unmodified, results fresh.')
+PROPS['C06'] = dict(level='proof', functions=[ND + 'regress', ND + 'mse', ND + '__init__'], bounded=[],
+                    design='DESIGN.md §4 C06', technique=TECH,
+                    note=NOTE + ' A-LINALG. Non-negativity, order-invariance, monotonicity and the LGANM causal link are corollaries L-LS/L-GAUSS (cited, cross-checked by the bounded tier only).',
+                    claim='regress is proved to return coefficients that vanish outside S and satisfy the normal equations C_SS b_S = C_Sy with intercept mean_y - b.mean, for every dimension and index order; mse is proved to equal var_y + b C b^T - 2 C_y b^T for exactly those coefficients (a deterministic function of covariance, y and S only).')
 NOT_YET = {}
 
 GLOBAL_ASSUMPTIONS = [
